@@ -93,3 +93,77 @@ Proof.
       rewrite (IH (a ++ da) (b ++ db)), (IH da db). cbn [fst snd]. rewrite !app_assoc. reflexivity. }
   rewrite fold_left_app. destruct (fold_left step t1 ([], [])) as [a b] eqn:E. rewrite (G t2 a b). reflexivity.
 Qed.
+
+(* an explicit file that an exclude pattern hits (as a glob or as a substring) is listed as excluded, not scanned *)
+Theorem explicit_excluded fs inc cfgx t xp :
+  fs_isdir fs t = false ->
+  (exists x, In x (exclude_globs fs cfgx xp) /\ (fnmatch_b t x = true \/ contains t x = true)) ->
+  discover fs inc cfgx [t] false xp = ([], [t]).
+Proof.
+  intros Hd [x [Hx Hm]]. unfold discover. cbn [fold_left]. rewrite Hd.
+  assert (E : is_file_included t inc (exclude_globs fs cfgx xp) false = false).
+  { unfold is_file_included, matches_glob_list. rewrite orb_true_r. cbn [andb].
+    apply andb_false_iff. destruct Hm as [Hm|Hm]; [left|right]; apply negb_false_iff, existsb_exists; exists x; auto. }
+  rewrite E. reflexivity.
+Qed.
+
+(* one directory target under -r is exactly the partition of its walk *)
+Lemma discover_one_dir fs inc cfgx t xp :
+  fs_isdir fs t = true ->
+  discover fs inc cfgx [t] true xp = files_from_dir (fs_walk fs t) inc (exclude_globs fs cfgx xp).
+Proof.
+  intro Hd. unfold discover. cbn [fold_left]. rewrite Hd.
+  destruct (files_from_dir (fs_walk fs t) inc (exclude_globs fs cfgx xp)) as [a b]. reflexivity.
+Qed.
+
+(* the whole run over any number of directory targets: a path is in scope iff some target's walk lists it and the
+   one predicate accepts it; it is listed as excluded iff some target's walk lists it and the predicate rejects it *)
+Theorem discover_dirs_scope fs inc cfgx xp ts p :
+  (forall t, In t ts -> fs_isdir fs t = true) ->
+  (In p (fst (discover fs inc cfgx ts true xp)) <->
+   (exists t, In t ts /\ In p (walked (fs_walk fs t))) /\ is_file_included p inc (exclude_globs fs cfgx xp) true = true)
+  /\
+  (In p (snd (discover fs inc cfgx ts true xp)) <->
+   (exists t, In t ts /\ In p (walked (fs_walk fs t))) /\ is_file_included p inc (exclude_globs fs cfgx xp) true = false).
+Proof.
+  induction ts as [|t ts IH]; intro Hd.
+  - unfold discover. cbn [fold_left fst snd]. split; split; first [ intros [[t [[] _]] _] | intros [] ].
+  - change (t :: ts) with ([t] ++ ts). rewrite discover_app. cbn [fst snd].
+    rewrite (discover_one_dir fs inc cfgx t xp (Hd t (or_introl eq_refl))).
+    destruct (IH (fun u Hu => Hd u (or_intror Hu))) as [IH1 IH2].
+    unfold files_from_dir. fold (walked (fs_walk fs t)). cbn [fst snd].
+    rewrite !in_app_iff, !filter_In, IH1, IH2, negb_true_iff. split; split.
+    + intros [[Hw Hi]|[[u [Hu Hw]] Hi]]; (split; [|exact Hi]); [exists t | exists u]; cbn [In app]; auto.
+    + intros [[u [[Hu|Hu] Hw]] Hi]; [subst u; left; auto | right; split; [exists u; auto | exact Hi]].
+    + intros [[Hw Hi]|[[u [Hu Hw]] Hi]]; (split; [|exact Hi]); [exists t | exists u]; cbn [In app]; auto.
+    + intros [[u [[Hu|Hu] Hw]] Hi]; [subst u; left; auto | right; split; [exists u; auto | exact Hi]].
+Qed.
+
+(* hence, over directory targets, no path is in both lists ... *)
+Theorem discover_dirs_disjoint fs inc cfgx xp ts p :
+  (forall t, In t ts -> fs_isdir fs t = true) ->
+  ~ (In p (fst (discover fs inc cfgx ts true xp)) /\ In p (snd (discover fs inc cfgx ts true xp))).
+Proof.
+  intros Hd [H1 H2]. destruct (discover_dirs_scope fs inc cfgx xp ts p Hd) as [S1 S2].
+  apply S1 in H1 as [_ H1]. apply S2 in H2 as [_ H2]. congruence.
+Qed.
+
+(* ... and none that any target's walk lists is in neither *)
+Theorem discover_dirs_nothing_lost fs inc cfgx xp ts p :
+  (forall t, In t ts -> fs_isdir fs t = true) ->
+  ((exists t, In t ts /\ In p (walked (fs_walk fs t))) <->
+   In p (fst (discover fs inc cfgx ts true xp)) \/ In p (snd (discover fs inc cfgx ts true xp))).
+Proof.
+  intro Hd. destruct (discover_dirs_scope fs inc cfgx xp ts p Hd) as [S1 S2]. split.
+  - intro Hw. destruct (is_file_included p inc (exclude_globs fs cfgx xp) true) eqn:E;
+      [left; apply S1 | right; apply S2]; auto.
+  - intros [H|H]; [apply S1 in H | apply S2 in H]; tauto.
+Qed.
+
+(* non-vacuity: two directory targets, one file each, one of them rejected by the include globs *)
+Example discover_dirs_example :
+  let a := [97%N] in let b := [98%N] in
+  let fs := FS (fun _ => true) (fun t => [(t, [[120%N; 46%N; 112%N; 121%N]; [121%N]])]) in
+  let r := discover fs [[42%N; 46%N; 112%N; 121%N]] [] [a; b] true [] in
+  List.length (fst r) = 2 /\ List.length (snd r) = 2.
+Proof. vm_compute. split; reflexivity. Qed.
